@@ -80,3 +80,9 @@ Theorem C07_generated_ancestors_are_the_model : forall fuel sims (t : tables), N
   ancestors_gen fuel sims (fun s => aget_l s (t_trig t)) = ancestors fuel t.
 Proof. exact tie_ancestors. Qed.
 Print Assumptions C07_generated_ancestors_are_the_model.
+Example C07_generated_ancestors_nonvacuous :
+  let z := mkI 1 1 [0%Z] in let o := mkI 1 1 [1%Z] in
+  let t := mkTables [] [] [] [(0%nat, [(0%nat, [(1%nat, z)])]); (1%nat, [(0%nat, [(2%nat, o)])]); (2%nat, [])] [] [] [] [] [] in
+  NoDup [0%nat; 1%nat; 2%nat] /\ t_trig t = map (fun s => (s, aget_l s (t_trig t))) [0%nat; 1%nat; 2%nat] /\
+  ancestors_gen 100 [0%nat; 1%nat; 2%nat] (fun s => aget_l s (t_trig t)) = Some (Some [(1%nat, [(0%nat, z)]); (2%nat, [(1%nat, o); (0%nat, o)])]).
+Proof. vm_compute. repeat split; try reflexivity. repeat constructor; simpl; intuition discriminate. Qed.
